@@ -344,6 +344,7 @@ def check_sicd_file(nitf_details):
             logger.exception(
                 'SICD: All image segments appear viable for the SICD,\n\t'
                 'but SICDReader construction failed')
+            all_valid = False
     return all_valid
 
 
